@@ -344,6 +344,26 @@ def observe(root):
     return o
 
 
+def records_partial(root):
+    """some entity of the path store misses one of its other components (directory records have metadata only)"""
+    paths, _, ok1 = replay_store(root, "xvc-path-store")
+    metas, _, ok2 = replay_store(root, "xvc-metadata-store")
+    digs, _, ok3 = replay_store(root, "content-digest-store")
+    meths, _, ok4 = replay_store(root, "recheck-method-store")
+    tobs, _, ok5 = replay_store(root, "file-text-or-binary-store")
+    if not (ok1 and ok2 and ok3 and ok4 and ok5):
+        return True
+    for e in paths:
+        md = metas.get(e)
+        if md is None:
+            return True
+        if md.get("file_type") == "Directory":
+            continue
+        if e not in digs or e not in meths or e not in tobs:
+            return True
+    return False
+
+
 def meta_files(root):
     """relative name -> bytes of every file under .xvc/store and .xvc/ec"""
     out = {}
@@ -840,7 +860,8 @@ def judge(t, w, ref_obs, sc):
             all(ref_obs["objs"][k][0] == after["objs"][k][0] and ref_obs["objs"][k][3:] == after["objs"][k][3:] for k in ref_obs["objs"])
         bad.append(("rerun-diverges", "re-run + recheck differs from the uninterrupted run: " + "; ".join(diffs[:4])
                     + ((" [re-run failed: %s]" % (r1.err.strip().split("\n")[0][:120])) if r1.failed else "")
-                    + (" [only-permission-bits]" if perm_only else "")))
+                    + (" [only-permission-bits]" if perm_only else "")
+                    + (" [only-source-left]" if source_left_only(ref_obs, after) else "")))
     return bad, loads
 
 
@@ -857,6 +878,17 @@ CLAUSE_CLASS = {"loads": ["torn-event-file"],
                 "restore-fails": ["partial-record-set"],
                 "rerun-diverges": ["torn-event-file", "partial-record-set", "crash-during-workspace-copy", "crash-between-records-and-content",
                                    "object-left-writable", "crash-between-records-and-replacement"]}
+
+
+def source_left_only(ref_obs, after):
+    """the two states differ only in workspace entries that exist after the re-run and not in the uninterrupted run,
+    each a regular file holding the bytes of a cache object (a source that was never renamed away)"""
+    if ref_obs["objs"] != after["objs"] or ref_obs["recs"] != after["recs"]:
+        return False
+    objbytes = {v[3] for v in after["objs"].values() if v[0] == "F"}
+    extra = [k for k in after["ws"] if k not in ref_obs["ws"]]
+    same = all(after["ws"].get(k) == v for k, v in ref_obs["ws"].items())
+    return bool(extra) and same and all(after["ws"][k][0] == "F" and after["ws"][k][2] in objbytes for k in extra)
 
 
 def classify(clause, ks):
@@ -883,7 +915,9 @@ def one_kill(t, sc, canon, full, ref_obs, inject):
         # P33 is about the record stores of track / carry-in (five saves, one after the other); a kill between the
         # record saves of another command explains nothing
         kind_ = (sc["cmd"][0] if "cmd" in sc else (sc["argv"][1] if len(sc.get("argv", [])) > 1 else ""))
-        if kind_ not in ("track", "carry", "carry-in") and "partial-record-set" in ks:
+        # P33 (any command that saves several record stores one after the other) is decided on the state as well: the
+        # records the kill left ARE partial -- some entity has a path and lacks metadata, digest, method or text-or-binary
+        if "partial-record-set" in ks and not records_partial(w):
             ks.remove("partial-record-set")
         # the same class decided on the STATE the kill left (robust against how the kernel / libc split a
         # file copy into system calls and against which thread's in-flight call the log shows last): a
@@ -905,6 +939,7 @@ def one_kill(t, sc, canon, full, ref_obs, inject):
             # (decided on the state, the class explains a divergence only when nothing but permission bits differs)
             if k is None and state_p34 and cl == "rerun-diverges" and "[only-permission-bits]" in what:
                 k = "object-left-writable"
+
             out.append((cl, what, k))
         return {"inject": inject, "killed": True, "call": raw, "canon": killed, "done": len(done), "classes": ks + (["object-left-writable"] if state_p34 else []),
                 "bad": out, "loads": loads}
